@@ -359,3 +359,6 @@ def run(repo: Repo, rep: Report, tier: str) -> None:
 
     unit_switch_rule(repo, rep, "C01.R21")
     layout_fold_rule(repo, rep, "C01.R22", 3 if tier == "thorough" else 2)
+    from .c05 import leb128_rule as _leb
+
+    _leb(repo, rep, "C01.R23")
